@@ -188,8 +188,18 @@ class OTAFirmware:
                 fw_ver,
             )
             return
+        if not (0 <= fw_type <= 0xFFFF and 0 <= fw_ver <= 0xFFFF):
+            _LOGGER.error(
+                "Firmware type %s or version %s not valid, must be 0-65535",
+                fw_type,
+                fw_ver,
+            )
+            return
         if fw_bin is not None:
             fware = prepare_fw(fw_bin)
+            if fware["blocks"] > 0xFFFF:
+                _LOGGER.error("Firmware is too large: %s blocks", fware["blocks"])
+                return
             self.firmware[fw_type, fw_ver] = fware
         if (fw_type, fw_ver) not in self.firmware:
             _LOGGER.error(
